@@ -537,7 +537,7 @@ def build_family(seed):
 
 MANUAL_SET = r'''
 // ---- a command set whose Autocomplete and Help are written by hand (derive with skip_autocomplete,
-// ---- skip_help): help text that does not end its last line, candidates merged in a loop
+// ---- skip_help): help text that does not end its last line, completion that calls mark_partial() and merges once
 #[derive(Debug, Command)]
 #[command(skip_autocomplete, skip_help)]
 #[allow(dead_code)]
@@ -556,10 +556,27 @@ impl embedded_cli::service::Autocomplete for Manual<'_> {
     fn autocomplete(request: embedded_cli::autocomplete::Request<'_>, autocompletion: &mut embedded_cli::autocomplete::Autocompletion<'_>) {
         #[allow(irrefutable_let_patterns, unreachable_patterns)]
         if let embedded_cli::autocomplete::Request::CommandName(name) = request {
+            // unlike the derived code (one merge per candidate) this one works the common
+            // continuation out itself, says so when it is ambiguous, and merges once
+            let mut common: Option<&str> = None;
+            let mut matches = 0;
             for n in MANUAL_NAMES {
                 if let Some(rest) = n.strip_prefix(name) {
-                    autocompletion.merge_autocompletion(rest);
+                    matches += 1;
+                    common = Some(match common {
+                        None => rest,
+                        Some(c) => {
+                            let l = c.bytes().zip(rest.bytes()).take_while(|(a, b)| a == b).count();
+                            &c[..l]
+                        }
+                    });
                 }
+            }
+            if let Some(c) = common {
+                if matches > 1 {
+                    autocompletion.mark_partial();
+                }
+                autocompletion.merge_autocompletion(c);
             }
         }
     }
